@@ -405,6 +405,8 @@ Program genC01(Rand& R, int tier)
 Program generate(const std::string& p, Rand& R, int tier)
 {
     if (p == "C01") return genC01(R, tier);
+    if (p == "C16") return genC16(R, tier);
+    if (p == "C17") return genC17(R, tier);
     if (p == "C13") return genC13(R, tier);
     if (p == "C14") return genC14(R, tier);
     if (p == "C15") return genC15(R, tier);
@@ -426,6 +428,8 @@ Program generate(const std::string& p, Rand& R, int tier)
 
 bool nontrivialRule(const std::string& p, const Labels& L)
 {
+    if (p == "C16") return L.has("misuse_rejected") && L.has("misuse_with_10_live_nodes");
+    if (p == "C17") return L.has("forest_destroyed") && L.has("edge_detached_by_destroy") && L.has("cross_forest_op");
     if (p == "C13") return L.has("reorder_nonidentity") && L.has("reorder_2held_edges");
     if (p == "C14") return L.has("op.read") && L.has("write_2roots") && (L.has("write_terminal_root") || L.has("write_repeated_root"));
     if (p == "C15") return L.has("indexset_proper");
@@ -447,6 +451,8 @@ bool nontrivialRule(const std::string& p, const Labels& L)
 
 const char* ruleText(const std::string& p)
 {
+    if (p == "C16") return "a valid history over two domains and forests of several kinds (so forests hold nodes and compute tables are warm) with misuse calls spliced in: operands / result forests from another domain, set/relation, labeling and range-type mismatches for the operation catalogue, compute() with a result or operand edge attached to another forest, values outside the terminal range, zero divisors met at the last point of the recursion, exhausted iterators, bad variables, minterms of another domain, getElement on a non-index edge, edges of a destroyed forest; each must raise MEDDLY::error with a code documented for that class of misuse, after which every held edge is re-evaluated, every forest audited, no node may be under-counted, and valid operations continue; non-trivial = a misuse was rejected while >= 10 nodes were live; distinct = distinct program text";
+    if (p == "C17") return "1-3 domains, forests of several kinds, operations that span forests (COPY, comparisons), then forest::destroy / domain::destroy / new forests / cleanup()+initialize() with other compute-table settings in random order with work continuing in the survivors: edges of destroyed forests must be detached (no forest, node 0) and raise errors when used, forest identifiers never repeat and retired ones resolve to null, double initialize / cleanup raise the documented errors; survivors are re-evaluated, audited, and exact reference counts and cache counts recounted after every step; non-trivial = a forest was destroyed while edges were attached and after operations that span forests; distinct = distinct program text";
     if (p == "C18") return "random request/recycle sequences (50-700 operations in quick, up to 6000 in thorough; sizes from the declared minimum up to 600 slots, 15 for free-lists; popular sizes for exact fits, neighbouring releases for coalescing, growth / shrink / total-release phases) driven directly into ORIGINAL_GRID, ARRAY_PLUS_GRID, HEAP_MANAGER, MALLOC_MANAGER (4-byte slots) and FREELISTS (4- and 8-byte slots) against a reference allocator model: granted >= requested, no overlap with any live chunk (addresses re-derived after every call), sentinel contents of every live chunk intact after every call, a live handle is never returned again, isValidHandle true for live handles; non-trivial = the sequence coalesced adjacent holes and reused the remainder of a split hole (as seen by the model); distinct = distinct generated sequence";
     if (p == "C19") return "quick: boundary-stratified and random integers (incl. the range limits +-2^30, values just outside, powers of two up to 2^62) and float bit patterns (all exponents x edge mantissas, denormals, infinities, 300k random per worker), booleans, and a few values through live MT-int / MT-real / EV+ forests; thorough: exhaustive over all 2^31 terminal integers, the 2^33 integers just outside and all 2^32 float patterns; each value is encoded to a handle and decoded (reals: to the float with the last mantissa bit cleared, computed independently), zero/false must be the unique transparent handle, out-of-range integers must raise VALUE_OVERFLOW; non-trivial = |value| > 42 (not a value the test suite uses); distinct = distinct value";
     if (p == "C13") return "MT set/relation (bool/int/real) and EV+ set forests with a random scheduling heuristic (8) and swap method (2); 2-5 held edges sharing nodes, a second forest over the same domain, warm compute tables; reorderVariables() to a uniformly random permutation, more operations, optionally back to the default order; every held edge is re-evaluated against its table under the new order (evaluate + own expansion), the forest is audited, other forests' orders and edges must be unchanged; non-trivial = a non-identity reordering with >= 2 held edges; distinct = distinct program text";
